@@ -1,5 +1,6 @@
 import MaltModel.Util.Sexp
 import MaltModel.Func.Functionalise
+import MaltModel.Func.Wrapper
 import MaltModel.Proofs.FuncFBasic
 import MaltModel.Proofs.FuncBlockVars
 /- Driver handlers for the C02 / C01Func correspondence (glue only; no theorem depends on this file).
@@ -11,6 +12,7 @@ Wire format (S-expressions):
            | (if info c (astmt*) (astmt*)) | (while info c (astmt*)) | (for info x it (e?) (astmt*))
   astmt  also: (with info tag (astmt*)) | (try info (astmt*) ((tag (astmt*))*) (astmt*))
   tstmt  also: (withT tag (tstmt*)) | (tryT (tstmt*) ((tag (tstmt*))*) (tstmt*))
+  wrapper ::= (name userRequested) | (name userRequested do_return retval_)
   tstmt  ::= (assign x e) | (expr e) | (pass) | (ret e?) | (raise t) | (undef x)
            | (ifF c (tstmt*) (tstmt*) (decl*) nouts) | (whileF c (tstmt*) (decl*)) | (forF x it (e?) (tstmt*) (decl*))
   input  ::= ((x val)*)      val ::= <int> | (lst <int>*) | none
@@ -258,7 +260,59 @@ def runAll (p : List AStmt) (t : List TStmt) (fuel : Nat) (inp : List (Name × V
   let natModel := (execNB X0 fuel (funcB p) (tstOf inp)).map (·.1)
   .list [outSexp src, outSexp nat, outSexp fn, outSexp natModel]
 
+/-- The `Lowered` body inside an annotated lowered program, given the wrapper's return variables:
+`do_return = 0; retval_ = None; mid; return retval_` ↦ `rets …`, anything else with return variables ↦ none. -/
+def lowered? (rv : Option (Name × Name)) (p : List AStmt) : Option Lowered :=
+  match rv with
+  | none => some (.plain p)
+  | some (dr, r) =>
+    match p with
+    | .assign i₁ x (.const (.int 0)) :: .assign i₂ y (.const .none) :: rest =>
+      match rest.getLast? with
+      | some (.ret i₃ (some (.var z))) =>
+        if x == dr && y == r && z == r then some (.rets dr r i₁ i₂ i₃ rest.dropLast) else none
+      | _ => none
+    | _ => none
+
+def wrapper? : Sexp → Option (String × Bool × Option (Name × Name))
+  | .list [.atom n, .atom u] => some (n, u == "True", none)
+  | .list [.atom n, .atom u, .atom dr, .atom rv] => some (n, u == "True", some (dr, rv))
+  | _ => none
+
+def evSexp : Event → Sexp
+  | .enter k => .atom ("enter:" ++ toString k)
+  | .exit k => .atom ("exit:" ++ toString k)
+  | .call g _ => .atom ("call:" ++ g)
+
+def callSexp (stk : CtxStack) (r : Option (Out × TSt × CtxStack)) : Sexp :=
+  .list [outSexp (r.map (·.1)), .list ((r.map (·.2.1.log)).getD [] |>.map evSexp), boolS ((r.map (·.2.2)) == some stk)]
+
 def handlers : List (String × (List Sexp → String)) := [
+  -- c02.callw <ablock> <names D> <tblock: real block inside the with> <wrapper> <fuel> <input>*
+  --   ->  ((shape b) (wf b) (hyp b) (hypf b) (func <funcB inner>) (runs ((src-out src-log) model-native real-native real-functional)*))
+  --   each call result: (outcome log stack-restored)
+  ("c02.callw", fun a => match a with
+    | p :: d :: t :: w :: f :: inps => match ablock? p, names? d, tblock? t, wrapper? w, f.nat?, inps.mapM input? with
+      | some p, some D, some t, some (name, ur, rv), some fuel, some inps =>
+        match lowered? rv p with
+        | none => toString (Sexp.list [.list [.atom "shape", boolS false]])
+        | some l =>
+          let stk : CtxStack := [.disabled]
+          let wr := l.wrapper name ur
+          toString (Sexp.list [
+            .list [.atom "shape", boolS true],
+            .list [.atom "wf", boolS l.wf],
+            .list [.atom "hyp", boolS (funcHyp D l.prog [])],
+            .list [.atom "hypf", boolS (hypFB l.inner && pureB l.inner)],
+            .list [.atom "func", tblockSexp (funcB l.inner)],
+            .list (.atom "runs" :: inps.map fun inp =>
+              let rs := callS X0 fuel (eraseB l.prog) (stOf inp)
+              .list [.list [outSexp (rs.map (·.1)), .list ((rs.map (·.2.log)).getD [] |>.map evSexp)],
+                     callSexp stk (callConverted X0 fuel l name ur (tstOf inp) stk),
+                     callSexp stk (callW X0 fuel wr t (tstOf inp) stk),
+                     callSexp stk (callWF X0 fuel wr t (tstOf inp) stk)])])
+      | _, _, _, _, _, _ => "bad-node"
+    | _ => "bad-args"),
   -- c02.check <ablock> <names D> <names O>  ->  flags + diagnostics + funcB
   ("c02.check", fun a => match a with
     | [p, d, o] => match ablock? p, names? d, names? o with
